@@ -57,7 +57,7 @@ func Start(opts Options) (*Client, error) {
 		return nil, errors.New("DataDir required")
 	}
 	if opts.Timeout == 0 {
-		opts.Timeout = 60 * time.Second
+		opts.Timeout = 180 * time.Second
 	}
 	bin := opts.Binary
 	if bin == "" {
